@@ -150,7 +150,9 @@ def generate(rng, prop, tier, index):
     r = rng.random()
     if npk and r < 0.12:
         sc['fault'] = {'kind': 'ENOENT', 'pkg': rng.randrange(npk)}
-    elif r < 0.24:
+    elif npk and r < 0.17:
+        sc['fault'] = {'kind': 'OPEN-TRANSIENT', 'pkg': rng.randrange(npk)}
+    elif r < 0.29:
         sc['fault'] = {'kind': 'MALFORMED', 'where': rng.choice(
             [-1] + list(range(npk))), 'how': rng.choice(
             ['noarg', 'nonstring', 'badopt', 'badoptval', '3args',
@@ -169,6 +171,11 @@ def _dir_of(sc, i):
 def _file_of(sc, i):
     """Store-relative path of package i's file."""
     p = sc['pkgs'][i]
+    if p.get('uplib'):
+        # beside the project directory: `proj/../lib/` - which is another
+        # directory physically than lexically when proj is a symbolic link
+        return ('real/deep/lib/' if sc.get('proj_symlink') else 'lib/') + \
+            p['name'] + '.lua'
     if p.get('vendor'):
         return 'proj/vendor/%s.lua' % p['name']
     if p.get('selfdir'):
@@ -190,8 +197,9 @@ def _req_string(sc, frm, to):
     """The require string used in file `frm` for package `to`: the path of
     the package file relative to the requiring file's directory, without
     extension (resolved by the default `?;?.lua` or the custom path)."""
-    if sc['pkgs'][to].get('selfdir') or sc['pkgs'][to].get('vendor'):
-        return None                  # by bare name through an absolute entry
+    if sc['pkgs'][to].get('selfdir') or sc['pkgs'][to].get('vendor') or \
+            sc['pkgs'][to].get('uplib'):
+        return None                  # by bare name through a load-path entry
     rel = os.path.relpath(_dir_of(sc, to) + sc['pkgs'][to]['name'],
                           _req_dir_of(sc, frm))
     if rel.startswith('..'):
@@ -218,6 +226,11 @@ def _item_text(sc, frm, it, lua_path_mode):
         return 'if mk_0 then mk_%d=%d end' % (i, i)
     if t == 'sif':
         return 'if (mk_0) mk_%d=%d' % (i, i)
+    if t == 'glyph':
+        # a name that starts with glyph characters whose bytes are those of a
+        # UTF-8 byte order mark (in this or another order)
+        return ('\xbf\xbb_g%d=%d', '\xef\xbb\xbfg%d=%d', '\xbbq%d=%d')[
+            i % 3] % (i, i)
     if t == 'cm':
         return '-- comment %d' % i
     if t == 'blank':
@@ -340,7 +353,8 @@ def req_name(sc, frm, to):
         # reachable only through the load path rooted at proj/: the scenario
         # then uses a load path with an absolute or main-relative entry
         s = '@' + ('' if (sc['pkgs'][to].get('selfdir') or
-                          sc['pkgs'][to].get('vendor'))
+                          sc['pkgs'][to].get('vendor') or
+                          sc['pkgs'][to].get('uplib'))
                    else sc['pkgs'][to]['dir']) + sc['pkgs'][to]['name']
     return s
 
@@ -426,7 +440,8 @@ def _hname(m):
 
 
 def _needs_root_path(sc):
-    if any(p.get('vendor') or p.get('selfdir') for p in sc['pkgs']):
+    if any(p.get('vendor') or p.get('selfdir') or p.get('uplib')
+           for p in sc['pkgs']):
         return True
     return _needs_root_path0(sc)
 
@@ -455,6 +470,8 @@ def _lua_path_value(sc, w):
         val += ';%s?/?.lua' % absroot
     if any(p.get('vendor') for p in sc['pkgs']):
         val += ';%svendor/?.lua' % absroot
+    if any(p.get('uplib') for p in sc['pkgs']):
+        val += ';../lib/?.lua'
     return ('env' if how == 'env' else 'arg'), val
 
 
@@ -465,7 +482,7 @@ def _file_bytes(sc, i):
     text = _fix_at(render(sc, i))
     if sc['pkgs'][i].get('crlf'):
         text = text.replace('\n', '\r\n')
-    return text.encode()
+    return text.encode('latin-1')
 
 
 def _fix_at(text):
@@ -486,7 +503,7 @@ def model_traverse(sc, w, lp_value):
             if not cand.startswith('/'):
                 cand = os.path.join(base, cand)
             if os.path.isfile(cand):
-                return os.path.normpath(cand)
+                return cand
         return None
 
     def visit(frm, stripped=False):
@@ -510,7 +527,10 @@ def model_traverse(sc, w, lp_value):
             # which package file is it?
             idx = None
             for j, p in enumerate(sc['pkgs']):
-                if os.path.normpath(w.p(_file_of(sc, j))) == target:
+                # (by identity: a name with `..` behind a symbolic link is
+                # another file than its lexical normalisation)
+                fj = w.p(_file_of(sc, j))
+                if os.path.isfile(fj) and os.path.samefile(fj, target):
                     idx = j
             if idx is None:
                 return ('unknown-file', name)
@@ -531,6 +551,16 @@ def execute(sc):
     fault = sc.get('fault')
     fk = fault['kind'] if fault else None
     with world.World(env={'HOME': '$ROOT/home'}) as w:
+        if sc.get('proj_symlink'):
+            # the project directory is a symbolic link to a directory with
+            # another parent
+            w.mkdir('real/deep/proj')
+            os.symlink('real/deep/proj', w.p('proj'))
+            for p in sc['pkgs']:
+                if p.get('uplib'):
+                    w.put('lib/%s.lua' % p['name'],
+                          b'beside_the_link_not_its_target=1\n')
+            core.bump(res['probes'], 'project-directory-is-a-symlink')
         w.mkdir('proj')
         w.mkdir('out')
         w.mkdir('home')
@@ -555,7 +585,7 @@ def execute(sc):
                             not os.path.lexists(w.p(d + first)):
                         w.put(d + first, b'vfile=1\n')
         main_text = _fix_at(render(sc2, -1))
-        w.put('proj/main.lua', main_text.encode())
+        w.put('proj/main.lua', main_text.encode('latin-1'))
         out_rel = 'out/out.p8' + ('.png' if sc['out_fmt'] == 'png' else '')
         if sc.get('out_prior') == 'cart':
             prior = refcodec.cart_from_spec({
@@ -607,10 +637,10 @@ def execute(sc):
                     w.put(_file_of(sc2, i), ('old_%d=1\n' % i).encode() +
                           _file_bytes(sc2, i))
             if sc.get('rebuild') == 'same-stat':
-                w.put('proj/main.lua', main_text.encode().replace(
+                w.put('proj/main.lua', main_text.encode('latin-1').replace(
                     b'mk_', b'ok_').replace(b'fn_', b'on_'))
             else:
-                w.put('proj/main.lua', b'old_main=1\n' + main_text.encode())
+                w.put('proj/main.lua', b'old_main=1\n' + main_text.encode('latin-1'))
             try:
                 rrc = tool.main(argv)
             except BaseException:
@@ -629,11 +659,11 @@ def execute(sc):
                 else:
                     w.put(_file_of(sc2, i), _file_bytes(sc2, i))
             if sc.get('rebuild') == 'same-stat':
-                w.put_keep_times('proj/main.lua', main_text.encode())
+                w.put_keep_times('proj/main.lua', main_text.encode('latin-1'))
                 core.bump(res['probes'], 'rebuilt-after-same-size-same-mtime-'
                           'rewrite')
             else:
-                w.put('proj/main.lua', main_text.encode())
+                w.put('proj/main.lua', main_text.encode('latin-1'))
             if sc.get('out_prior') != 'cart' and os.path.exists(
                     w.p(out_rel)):
                 os.unlink(w.p(out_rel))
@@ -713,6 +743,24 @@ def execute(sc):
         exc = None
         rc = None
         tracer = world.Tracer(step_cap=STEP_CAP) if sc.get('traced') else None
+        import builtins
+        real_open = builtins.open
+        transient = []
+        if fk == 'OPEN-TRANSIENT' and fault['pkg'] < len(sc2['pkgs']):
+            # the package's file cannot be opened once (an editor is just
+            # replacing it by rename); it is back at once
+            import errno
+            victim = os.path.realpath(w.p(_file_of(sc2, fault['pkg'])))
+
+            def flaky_open(file, *a, **k):
+                if not transient and isinstance(file, (str, bytes)):
+                    name = os.fsdecode(file)
+                    if os.path.realpath(name) == victim:
+                        transient.append(name)
+                        raise FileNotFoundError(
+                            errno.ENOENT, os.strerror(errno.ENOENT), name)
+                return real_open(file, *a, **k)
+            builtins.open = flaky_open
         try:
             if tracer is not None:
                 sys.settrace(tracer.global_trace)
@@ -724,6 +772,9 @@ def execute(sc):
             exc = e
         finally:
             sys.settrace(None)
+            builtins.open = real_open
+        if transient:
+            core.bump(res['faults'], 'OPEN-TRANSIENT')
         failed = exc is not None or rc not in (0, None)
         after = w.snap(out_rel)
         core.bump(res['ops'], 'build')
@@ -736,8 +787,22 @@ def execute(sc):
                 'C14|step cap exceeded|%s' % shape,
                 'the build did not finish within %d traced line events '
                 '(graph: %s)' % (STEP_CAP, _graph_desc(sc)))
+        elif transient and exc is not None or (
+                transient and rc not in (0, None)):
+            # the build may fail on the fault (OUT as it was) or go on to a
+            # complete, correct cart: nothing in between
+            if before != after:
+                outcome = 'failed-but-out-changed'
+                core.violation(
+                    res, 'C14', 'C14:failed-build-changed-out',
+                    'C14|failed build changed OUT',
+                    'the build failed on a file that could not be opened '
+                    'but OUT changed')
+            else:
+                outcome = 'failed-on-transient-fault'
         elif expect_fail:
-            core.bump(res['faults'], fk or 'MISSING')
+            core.bump(res['faults'], fk if fk in ('ENOENT', 'MALFORMED')
+                      else 'MISSING')
             if not failed:
                 outcome = 'bad-require-accepted'
                 core.violation(
@@ -1034,6 +1099,25 @@ def generate(rng, prop, tier, index):      # noqa: F811
     sc['global_flags'] = [[], [], [], ['--debug'], ['-q']][index % 5] \
         if index % 3 == 0 else []
     sc['out_prior_code'] = index % 7
+    if index % 9 == 1:
+        # the very first bytes of a file are glyph characters
+        holder = sc['main'] if (index // 9) % 2 == 0 or not sc['pkgs'] \
+            else sc['pkgs'][(index // 18) % len(sc['pkgs'])]
+        holder['items'].insert(0, {'t': 'glyph', 'id': 8000 + index % 997})
+        holder['seps'].insert(0, '\n')
+    if index % 11 == 3 and not (sc.get('fault') or {}).get('kind') == \
+            'MALFORMED':
+        # a library beside the project directory, found through a load-path
+        # entry with `..`; the project directory may be a symbolic link
+        k = len(sc['pkgs'])
+        sc['pkgs'].append({'name': 'uplib%d' % k, 'dir': '', 'uplib': True,
+                           'final_newline': True,
+                           'items': [{'t': 'm', 'id': 9000 + k}],
+                           'seps': ['\n']})
+        sc['main']['items'].append({'t': 'req', 'pkg': k, 'ugl': False,
+                                    'id': 9100 + k, 'form': 'stmt'})
+        sc['main']['seps'].append('\n')
+        sc['proj_symlink'] = index % 33 != 3
     if index % 7 in (2, 3):
         sc['out_prior'] = 'cart'
     return sc
